@@ -1227,6 +1227,27 @@ def _follow_param_names(f, sig):
     return g, [("R-paramname", ", ".join(w for w, _ in ren), ", ".join(h for _, h in ren))]
 
 
+
+def _closure_at(body, anchor, where):
+    """R-lambdalift: locate the closure literal that is the (last) argument of the call opened by `anchor` (text ending in `(`): returns
+    (start, end, params, closure_body) with body[start:end] the whole literal `|params| expr`."""
+    m = code_mask(body)
+    hits = [i for i in range(len(body)) if body.startswith(anchor, i) and m[i]]
+    if len(hits) != 1:
+        raise AnchorLost("%s: closure anchor matched %d times (expected 1): %s" % (where, len(hits), anchor))
+    op = hits[0] + len(anchor) - 1
+    if body[op] != "(":
+        raise Unsupported("R-lambdalift: anchor must end with `(`")
+    cl = match_close(body, m, op)
+    k = op + 1
+    while body[k].isspace():
+        k += 1
+    if body[k] != "|":
+        raise Unsupported("R-lambdalift: no closure literal after the anchor")
+    e = body.index("|", k + 1)
+    params = body[k + 1:e]
+    return k, cl, params, body[e + 1:cl].strip()
+
 def emit_fn(f, udir, unit_props, recs, log_global):
     """returns (emit_impl_header, text) for one [[fn]] entry."""
     if "from_unit" in f:
@@ -1295,6 +1316,19 @@ def emit_fn(f, udir, unit_props, recs, log_global):
     elif f.get("nested_in"):
         # R-hoist: a fn item nested in another fn's body captures nothing; it is emitted as a free function of the same text
         loc = src.find_fn(f["name"], None, f.get("nth", 0), nested_in=(f["nested_in"]["name"], f["nested_in"].get("impl")))
+    elif f.get("closure_of"):
+        # R-lambdalift: a closure literal that captures nothing (checked by the Rust front end: the lifted fn would not compile otherwise) is
+        # emitted as a fn item with the closure's own body text; parameter types and return type are stated in the unit (a closure leaves them inferred)
+        co = f["closure_of"]
+        ploc = src.find_fn(co["name"], co.get("impl"), co.get("nth", 0))
+        cs, ce, cparams, cbody = _closure_at(ploc["body"], co["anchor"], fn_id(f))
+        names = [x.strip() for x in cparams.split(",")]
+        tys = co["types"]
+        if len(names) != len(tys):
+            raise AnchorLost("%s: closure has %d parameters, %d types stated" % (fn_id(f), len(names), len(tys)))
+        sig_ = "fn %s(%s) -> %s " % (f["name"], ", ".join("%s: %s" % (n, t) for n, t in zip(names, tys)), co["ret"])
+        base_line = ploc["line"] + ploc["body"].count("\n", 0, cs) + (ploc["sig"].count("\n"))
+        loc = dict(start=0, body_open=0, body_close=0, sig=sig_, body="{ " + cbody + " }", line=base_line, end_line=base_line + cbody.count("\n"))
     else:
         loc = src.find_fn(f["name"], f.get("impl"), f.get("nth", 0))
     sig, body = loc["sig"], loc["body"]
@@ -1305,6 +1339,10 @@ def emit_fn(f, udir, unit_props, recs, log_global):
         cuts.append((h["start"] - loc["body_open"], h["body_close"] + 1 - loc["body_open"], hn))
     for (a, b, hn) in sorted(cuts, reverse=True):
         body = body[:a] + "/* nested fn %s hoisted */" % hn + body[b:]
+    for ll in f.get("lambdalift", []):
+        # R-lambdalift (other half): the closure literal is replaced by the name of the fn item emitted from its text
+        cs, ce, _cp, _cb = _closure_at(body, ll["anchor"], fn_id(f))
+        body = body[:cs] + ll["name"] + body[ce:]
     pn_log = []
     if f.get("params"):
         # R-paramname: the contract text names the parameters as listed in `params`; when the code has renamed one (typically to
